@@ -13,6 +13,17 @@ Mutation testing (scratch worktree, VERIF_REPO=<dir>, quick tier, seed 1; green 
   unfix-update-project      action.go update builds the record with the project's header (the defect reported
                             by the C24 seed author: `update t project k, a set a = 9` blanks b)  green -> VIOLATION
                             (reached by update/delete through `t [where] project <key + some columns>`)
+  insert-query-streams-nonupdateable-r2 (seeded/C24-insert-query-streams-nonupdateable-r2, independently
+                            written, round 2) action.go insert query buffers its source rows only when
+                            qr.Updateable() is the target table; a source reading the target through
+                            minus/union/join/... is streamed and sees its own output       green -> VIOLATION
+                            (missed before: sources reading the target were made "same columns" by makeSame,
+                            which hardly ever yields NEW key values, so re-reading inserted rows ended in the
+                            same duplicate-key error as the correct code. Reached by Gen.selfInsert: the target
+                            directly or below minus/union/intersect/join/leftjoin/semijoin/project/summarize,
+                            a key column shifted by a constant or replaced by a constant; spec: Relational.tla
+                            ScanInsert + MC law LawInsertQuery, deviation DevStreamInsert =
+                            Relational_dev_streaminsert.cfg must violate it)
   delete-skips-first        action.go delete skips the first row              tests red  -> VIOLATION
   delete-stops-at-dup       action.go delete: break instead of continue on a repeated record offset
                             green, NOT caught: equivalent here (a query never returns the same record
@@ -23,7 +34,7 @@ import relcommon
 META = {
  "engine": "tla-relational",
  "text": "insert record / insert query / update ... set / delete statements run through the REAL DoAction, each in its own update transaction on a heap database with random key/index sets; the returned count and all tables read back afterwards are compared by TLC with the statement's meaning on the denotation of its query (Relational.tla): new table = function of old table and selected rows, count = number of selected rows, duplicate keys must fail and leave everything unchanged (an error is also accepted when an update's new key collides with the old key of another selected row, since rows are updated one at a time).",
- "note": "trusts TLC, the generator/renderer, reading tables back through a plain table query; statements are update/delete on `table where ...`, insert of records and of generated queries (sometimes reading the target table itself)",
+ "note": "trusts TLC, the generator/renderer, reading tables back through a plain table query; statements are update/delete on `table where ...`, insert of records and of generated queries (sometimes reading the target table itself, directly or through non-updateable operators, with shifted key values: Gen.selfInsert)",
  "technique": "TLA+ denotational oracle, TLC trace validation of before/after tables",
 }
 
@@ -36,7 +47,9 @@ def classify(ev, opened=None):
 
 
 def run(ctx):
-    relcommon.exhaustive(ctx)
+    # LawInsertQuery: an insert query scanning its own target inserts one row per OLD row;
+    # the deviation (writing while the source is still being read) must violate it
+    relcommon.exhaustive(ctx, devs=[("Relational_dev_streaminsert.cfg", "LawInsertQuery")])
     if relcommon.replayed(ctx, classify, ('"e":"Reset"',)):
         return
     drv = ctx.go_build("relational")
